@@ -41,8 +41,10 @@ CONSTANTS
     EffectOf,   \* [operationId -> observable effect label]
     Methods, Spellings, MaxSpell,
     HdrCross,   \* TRUE: the header classes below are crossed with the documented spelling of every template
-    ValidatorOn \* TRUE = the code (setupAPIRouter installs OapiRequestValidator first); FALSE = named
-                \*   alternative without it, used only for the binding self-check of the later stages
+    Stacks      \* which handler stacks are in the domain:
+                \*   "server" = kprapi.Server.setupRouter as it is (validator, ConfigMiddleware, handlers)
+                \*   "gate"   = the same router without OapiRequestValidator: ConfigMiddleware + the generated
+                \*              handlers on their own (the gate must not depend on the validator in front of it)
 
 Range(f) == {f[i] : i \in DOMAIN f}
 MinOf(S) == CHOOSE x \in S : \A y \in S : x <= y
@@ -149,9 +151,10 @@ NoOp == [path |-> "", method |-> "", op |-> "", ro |-> "absent", params |-> <<>>
 Cont(next, rq) == [next |-> next, rq |-> rq, r |-> NoResp]
 Fin(rq, r) == [next |-> "done", rq |-> rq, r |-> r]
 
-\* rq = [m, w, h, raw (segments of URL.EscapedPath()), dec (segments of URL.Path),
-\*       rp (segments of chi's RoutePath), op]
-MkRq(m, p, w, h) == [m |-> m, w |-> w, h |-> h, raw |-> RawSegs(p), dec |-> DecSegs(p), rp |-> RawSegs(p), op |-> NoOp]
+\* rq = [m, w, h, stack, raw (segments of URL.EscapedPath()), dec (segments of URL.Path),
+\*       rp (segments of chi's RoutePath), op]      -- all of it is local to ONE request
+MkRq(m, p, w, h, stk) == [m |-> m, w |-> w, h |-> h, stack |-> stk, raw |-> RawSegs(p), dec |-> DecSegs(p),
+                          rp |-> RawSegs(p), op |-> NoOp]
 
 EmbT == {Tpl(EmbOrder[i]) : i \in DOMAIN EmbOrder}
 OpsAt(name, m) == {o \in Range(EmbOps) : o.path = name /\ o.method = m}
@@ -197,7 +200,7 @@ GMatch(t, raw) ==
     /\ \A i \in DOMAIN raw : IF t.segs[i].k = "lit" THEN raw[i] = t.segs[i].s ELSE raw[i] # ""
 
 Validator(rq) ==
-    IF ~ValidatorOn THEN {Cont("mw", rq)} ELSE
+    IF rq.stack = "gate" THEN {Cont("mw", rq)} ELSE
     LET hits == {i \in DOMAIN EmbOrder : GMatch(Tpl(EmbOrder[i]), rq.raw)} IN
     IF hits = {} THEN {Fin(rq, Resp(400, "None", "no_matching_oper", "validator"))}
     ELSE LET t == Tpl(EmbOrder[MinOf(hits)])
@@ -232,14 +235,21 @@ FindPathItems(dec) == IF PathsFind(dec) # {} THEN PathsFind(dec) ELSE {t \in Emb
 \* switch method: only GET, POST, PUT, DELETE are looked at
 FindOperation(t, m) == IF m \in {"GET", "POST", "PUT", "DELETE"} THEN OpsAt(t.name, m) ELSE {}
 
-ConfigMiddleware(rq) ==
+\* what `operation := findOperation(spec, r.URL.Path, r.Method)` may be (NoOp = nil); a per-request local
+FindOperationResults(rq) ==
     LET items == FindPathItems(rq.dec) IN
-    IF items = {} THEN {Fin(rq, Resp(404, "None", "Endpoint_not_fou", "mw"))}
-    ELSE UNION { LET ops == FindOperation(t, rq.m) IN
-                 IF ops = {} THEN {Fin(rq, Resp(404, "None", "Endpoint_not_fou", "mw"))}
-                 ELSE { IF ShouldEnableEndpoint(o, rq.w) THEN Cont("router", rq)
-                        ELSE Fin(rq, Resp(403, "None", "Endpoint_not_ena", "mw")) : o \in ops }
-               : t \in items }
+    IF items = {} THEN {NoOp}
+    ELSE UNION { IF FindOperation(t, rq.m) = {} THEN {NoOp} ELSE FindOperation(t, rq.m) : t \in items }
+
+\* the rest of the handler func, given the looked-up operation
+MwDecide(rq, o) ==
+    IF o = NoOp THEN Fin(rq, Resp(404, "None", "Endpoint_not_fou", "mw"))
+    ELSE IF ShouldEnableEndpoint(o, rq.w) THEN Cont("router", rq)
+    ELSE Fin(rq, Resp(403, "None", "Endpoint_not_ena", "mw"))
+
+\* The middleware keeps NO state between requests and shares none between concurrent requests:
+\* spec and operation are locals of the handler func (the document is re-loaded per request).
+ConfigMiddleware(rq) == {MwDecide(rq, o) : o \in FindOperationResults(rq)}
 
 (***************************************************************************)
 (* chi inner Mux: routes registered by kproapi.HandlerFromMux, one per     *)
@@ -294,8 +304,12 @@ Step(stage, rq) ==
 RECURSIVE Run(_, _)
 Run(stage, rq) == UNION { IF x.next = "done" THEN {x.r} ELSE Run(x.next, x.rq) : x \in Step(stage, rq) }
 
-\* every response the code may give to method m, path p, headers/body h with write operations w
-Serve(m, p, w, h) == Run("outer", MkRq(m, p, w, h))
+\* every response the code may give to method m, path p, headers/body h with write operations w on
+\* stack stk -- a function of the request alone: not of earlier requests on the same server
+\* instance (HttpGateHist) nor of requests in flight at the same time (HttpGateConc)
+Serve(m, p, w, h, stk) == Run("outer", MkRq(m, p, w, h, stk))
+ServeReq(r, w, stk) == Serve(r.m, SpellAll(BasePath(Tpl(r.t)), r.sps), w, r.h, stk)
+TplNames == {Templates[i].name : i \in DOMAIN Templates}
 
 (***************************************************************************)
 (* Named alternative (not the code): a gate that matched the RAW path the  *)
